@@ -31,7 +31,7 @@ ASSUMPTIONS = [
     "only default format options are used for the load-back clause (Config.load cannot pass options)",
 ]
 REQUIRED = ["size-sweep:bson", "inject:to_basic", "inject:keyfile", "inject:encrypt", "inject:dumps", "natural:unencodable", "natural:unknown-format",
-            "natural:bad-keyfile", "natural:out-of-domain", "success-save", "sibling-save"]
+            "natural:bad-keyfile", "natural:out-of-domain", "success-save", "sibling-save", "dest:home-relative"]
 LEVEL_TEXT = (
     "Every step of serialisation of each generated configuration is enumerated and failed once (exhaustive over the "
     "injection points of that configuration), plus naturally failing values; the destination file is compared byte "
@@ -80,6 +80,7 @@ def strategy(tier):
             "spec": st.just(spec), "populate": populate, "skip": st.lists(st.integers(0, 40), max_size=3),
             "modify": st.lists(ops.single_op(spec), max_size=4), "fmt": st.sampled_from(trees.FORMATS),
             "exc": st.sampled_from(sorted(EXC)),
+            "dest_style": st.sampled_from(["absolute", "absolute", "home"]),
         })
     def with_any(spec):
         extra = {"kind": "any", "key": "zzany", "req": False, "validator": None, "opts": {}, "default": {"mode": "none"}}
@@ -148,9 +149,12 @@ class Injector:
 
 
 def _stat(path):
-    st_ = os.stat(path)
-    with open(path, "rb") as fp:
-        return (fp.read(), st_.st_ino, st_.st_mtime_ns, st_.st_size)
+    try:
+        st_ = os.stat(path)
+        with open(path, "rb") as fp:
+            return (fp.read(), st_.st_ino, st_.st_mtime_ns, st_.st_size)
+    except OSError:
+        return (b"<the destination file no longer exists>", None, None, None)
 
 
 def _size_sweep(case, R):
@@ -199,8 +203,16 @@ def run_case(case, R):
             R.label("discarded:out-of-domain")
             return
         dest = os.path.join(d, "config." + fmt)
+        dest_arg = dest
+        if case.get("dest_style") == "home":
+            # the destination is given relative to the home directory ("~/..."), which save() and load() expand
+            home_dir = os.path.join(sandbox.home(), "c19-" + os.path.basename(d))
+            os.makedirs(home_dir, exist_ok=True)
+            dest = os.path.join(home_dir, "config." + fmt)
+            dest_arg = "~/" + os.path.relpath(dest, sandbox.home())
+            R.label("dest:home-relative")
         try:
-            cfg.save(dest, fmt)
+            cfg.save(dest_arg, fmt)
         except Exception as exc:
             R.fail("first-save-raises", fmt, "saving a valid in-domain configuration raised %r" % (exc,))
             return
@@ -213,11 +225,18 @@ def run_case(case, R):
         before = _stat(dest)
 
         def expect_untouched(site, what, exc_info):
+            nonlocal before
             after = _stat(dest)
+            if after[1] is None and before[1] is not None:
+                R.fail("untouched", site + ":deleted", "%s: the destination file was removed" % what)
+                with open(dest, "wb") as fp:  # put the previous configuration back so that the rest of the case can go on
+                    fp.write(before[0])
+                before = _stat(dest)
+                return
             R.check(after[0] == before[0], "untouched", site + ":bytes", lambda: "%s: destination content changed (%d -> %d bytes)" % (what, len(before[0]), len(after[0])))
             R.check(after[1:] == before[1:], "untouched", site + ":stat", lambda: "%s: destination inode/mtime/size changed" % what)
             R.check(os.path.abspath(dest) not in exc_info["writes"], "untouched", site + ":opened-for-writing", lambda: "%s: destination was opened for writing" % what)
-            leftovers = [n for n in os.listdir(d) if n not in ("config." + fmt, "key", "key-blocker")]
+            leftovers = [n for n in os.listdir(os.path.dirname(dest)) if n not in ("config." + fmt, "key", "key-blocker")]
             R.check(not leftovers, "untouched", site + ":leftovers", lambda: "%s: stray files left next to the destination: %r" % (what, leftovers))
 
         def failing_save(site, what, action, must_raise=True, retry=False):
@@ -265,14 +284,14 @@ def run_case(case, R):
             R.label("inject:" + label.split(":")[0].replace("to_basic", "to_basic"))
             with Injector(cc, target=k, exc=exc_cls):
                 failing_save("inject:" + label.split(":")[0], "fault (%s) injected at step %d/%d (%s)" % (case["exc"], k, n, label),
-                             lambda: cfg.save(dest, fmt))
+                             lambda: cfg.save(dest_arg, fmt))
             if label.startswith(("encrypt", "keyfile")) or k > 3:
                 depth_hit = True
         if depth_hit:
             R.nontrivial = True
 
         # ---- natural faults ---------------------------------------------------------------------------------------
-        failing_save("natural:unknown-format", "unknown format name", lambda: cfg.save(dest, "no-such-format"))
+        failing_save("natural:unknown-format", "unknown format name", lambda: cfg.save(dest_arg, "no-such-format"))
         R.label("natural:unknown-format")
         anys = [(p, nd) for p, nd in ops.spec_leaves(spec) if nd["kind"] == "any" and len(p) == 1]
         if anys and fmt not in ("pickle", "yaml"):  # pickle and PyYAML's full dumper can encode any Python object
@@ -285,7 +304,7 @@ def run_case(case, R):
                 ok = False
             if ok:
                 R.label("natural:unencodable")
-                failing_save("natural:unencodable", "un-encodable AnyField value", lambda: cfg.save(dest, fmt))
+                failing_save("natural:unencodable", "un-encodable AnyField value", lambda: cfg.save(dest_arg, fmt))
                 try:
                     setattr(cfg, path[0], old)
                 except Exception:
@@ -297,7 +316,7 @@ def run_case(case, R):
             try:
                 setattr(cfg, path[0], bad)
                 R.label("natural:out-of-domain")
-                failing_save("natural:out-of-domain", "value outside the %s domain" % fmt, lambda: cfg.save(dest, fmt))
+                failing_save("natural:out-of-domain", "value outside the %s domain" % fmt, lambda: cfg.save(dest_arg, fmt))
                 setattr(cfg, path[0], old)
             except Exception:
                 pass
@@ -308,7 +327,7 @@ def run_case(case, R):
             with open(blocker, "wb") as fp:
                 fp.write(b"x")
             R.label("natural:key-uncreatable")
-            failing_save("natural:key-uncreatable", "key file can be neither read nor created", lambda: cfg.save(dest, fmt), retry=True)
+            failing_save("natural:key-uncreatable", "key file can be neither read nor created", lambda: cfg.save(dest_arg, fmt), retry=True)
             os.unlink(blocker)
             cfg._key_filename = keyfile
             with open(keyfile, "rb") as fp:
@@ -317,7 +336,7 @@ def run_case(case, R):
                 fp.write(b"short")
             R.label("natural:bad-keyfile")
             # a fresh configuration object: key objects of cfg may legitimately hold nothing between saves anyway
-            failing_save("natural:bad-keyfile", "malformed key file", lambda: cfg.save(dest, fmt), retry=True)
+            failing_save("natural:bad-keyfile", "malformed key file", lambda: cfg.save(dest_arg, fmt), retry=True)
             with open(keyfile, "wb") as fp:
                 fp.write(good)
 
@@ -345,7 +364,7 @@ def run_case(case, R):
                     c02.compare(world, sib, back, R, "loads-back:sibling")
         with Injector(cc) as probe:
             try:
-                cfg.save(dest, fmt)
+                cfg.save(dest_arg, fmt)
             except Exception as exc:
                 R.fail("save-raises", fmt, "saving raised %r" % (exc,))
                 return
@@ -357,7 +376,7 @@ def run_case(case, R):
             return  # known D14 territory (C02)
         fresh = world.schema(key_filename=keyfile)
         try:
-            fresh.load(dest, fmt)
+            fresh.load(dest_arg, fmt)
         except Exception as exc:
             R.fail("loads-back", fmt + ":raises", "loading the file just saved raised %r" % (exc,))
             return
